@@ -18,10 +18,12 @@ import (
 	"encoding/json"
 	"fmt"
 	"os"
+	"path/filepath"
 	"reflect"
 	"sync"
 	"time"
 
+	"src.elv.sh/pkg/daemon"
 	"verif.local/harness/histx"
 	"verif.local/harness/lib"
 	"verif.local/harness/storex"
@@ -86,6 +88,23 @@ func run(c *lib.Ctx) error {
 	hist := make([][]Event, nh)
 	lib.Parallel(nh, 4, func(h int) {
 		rng := newRand(c.Seed*100003 + int64(h))
+		if h%4 == 3 {
+			// the database is the daemon client, as in the shell: hybrid store -> RPC -> daemon -> store
+			dir := filepath.Join(scratch, fmt.Sprintf("daemon%d", h))
+			os.MkdirAll(dir, 0o755)
+			defer os.RemoveAll(dir)
+			sock, stop, err := histx.StartDaemon(dir)
+			if err != nil {
+				fail(lib.Infra("start daemon: %v", err))
+				return
+			}
+			defer stop()
+			cl := daemon.NewClient(sock)
+			defer cl.Close()
+			hist[h] = randomHistory(c, rng, cl, steps)
+			c.Inc("v_histories_over_daemon_client", 1)
+			return
+		}
 		st, err := storex.OpenNoSync(storex.DBPath(scratch, 1_000_000+h))
 		if err != nil {
 			fail(lib.Infra("open store: %v", err))
@@ -93,6 +112,7 @@ func run(c *lib.Ctx) error {
 		}
 		defer func() { st.Close(); os.Remove(storex.DBPath(scratch, 1_000_000+h)) }()
 		hist[h] = randomHistory(c, rng, st, steps)
+		c.Inc("v_histories_over_db_store", 1)
 	})
 	if hung.Load() {
 		return lib.Infra("a cursor move of the real code did not return within 20s in a random history")
